@@ -326,18 +326,34 @@ pub fn series_on_one_thread(seed: u64, n: usize) -> Vec<(Kv, Result<Vec<u8>, Str
     std::thread::spawn(move || {
         let mut r = crate::rng::Rng::new(seed, 0x5e21e5);
         let mut out = vec![];
-        // very long series are SPARSE: every 256th build is one of three marker maps that share a node shape at different addresses,
-        // all other builds are trivial (they touch almost nothing of whatever a thread might keep between builders) - so markers
-        // meet again at distances 256, 512, ..., 65536, ... builders, each time as a DIFFERENT marker (256 and 65536 are 1 mod 3)
+        // very long series are SPARSE: almost all builds are trivial (they touch next to nothing of whatever a thread might keep
+        // between builders); markers are small maps containing one node of a shape that occurs NOWHERE else in the series except in
+        // its partner marker, exactly 256 or exactly 65536 builders later, where the same node sits at another address. (A per-thread
+        // "generation" of 8 or 16 bits comes round again after exactly that many builders.)
         let sparse = n > 20_000;
-        let markers: [Kv; 3] = [
-            vec![(b"ab".to_vec(), 0), (b"ac".to_vec(), 0)],
-            vec![(b"0q".to_vec(), 0), (b"xab".to_vec(), 0), (b"xac".to_vec(), 0)],
-            vec![(b"00q".to_vec(), 3), (b"0r".to_vec(), 1), (b"yyab".to_vec(), 0), (b"yyac".to_vec(), 0)],
-        ];
+        let marker = |j: usize, second: bool| -> Kv {
+            let (x, y) = (0x30 + (j % 64) as u8, 0x80 + (j / 64) as u8);
+            if second {
+                vec![(b"0q".to_vec(), 0), (vec![b'x', b'a', x], 0), (vec![b'x', b'a', y], 0)]
+            } else {
+                vec![(vec![b'a', x], 0), (vec![b'a', y], 0)]
+            }
+        };
         for i in 0..n {
             if sparse {
-                let kv: Kv = if i % 256 == 0 { markers[(i / 256) % 3].clone() } else if i % 2 == 0 { vec![] } else { vec![(b"t".to_vec(), (i % 5) as u64)] };
+                let kv: Kv = if i % 256 == 0 && i / 256 < 256 {
+                    marker(i / 256, false)
+                } else if i >= 65536 && (i - 65536) % 256 == 0 && (i - 65536) / 256 < 256 {
+                    marker((i - 65536) / 256, true)
+                } else if i % 512 == 128 {
+                    marker(256 + (i / 512) % 256, false)
+                } else if i % 512 == 384 {
+                    marker(256 + (i / 512) % 256, true)
+                } else if i % 2 == 0 {
+                    vec![]
+                } else {
+                    vec![(b"t".to_vec(), (i % 5) as u64)]
+                };
                 let res = std::panic::catch_unwind(|| plain_build(0, &kv)).unwrap_or_else(|_| Err("the build panicked".into()));
                 out.push((kv, res));
                 continue;
